@@ -24,7 +24,8 @@ class LookupFsDev(fs.fsDev):
             if st is None or any(
                 f(st.st_mode) for f in (stat.S_ISREG, stat.S_ISDIR, stat.S_ISFIFO)
             ):
-                kwds["strict"] = True
+                # nothing to look the device numbers up from: a partial entry
+                kwds["strict"] = False
             else:
                 major, minor = fs.get_major_minor(st)
                 kwds["major"] = major
